@@ -2,10 +2,11 @@
 """MANIFEST.json is generated from checks.json (single source of truth for the driver and the manifest)."""
 import json, subprocess
 import glob
+READY = set(json.load(open('/verif/ready.json')))
 cfg = {}
 for f in sorted(glob.glob('/verif/harness/c[0-9][0-9]/check.json')):
     for k, v in json.load(open(f)).items():
-        if v.get('ready'):
+        if k in READY:
             cfg[k] = v
 props = [json.loads(l) for l in open('/verif/properties.jsonl')]
 try:
